@@ -495,7 +495,12 @@ def _convergence(ctx):
                 ret = [s for s in f.node.body if isinstance(s, ast.Return)][-1]
                 ok = tests and retry and isinstance(ret.value, ast.Subscript) and const_value(ret.value.slice) == 0 and \
                     isinstance(ret.value.value, ast.Name) and ret.value.value.id == var
-                if ok:
+                quant = _retry_quantifier(tests[0].test, var) if ok else None
+                if ok and quant == "none-converged":
+                    ctx.violated(f, tests[0], "%s retries only when NO entry converged (%s): an array in which some entries failed is returned "
+                                 "with their raw, possibly diverged iterates" % (name, norm_text(tests[0].test)[:60]),
+                                 text="retry only if nothing converged in " + name)
+                elif ok:
                     ctx.holds(f, tests[0], "%s: converged flags inspected, non-converged entries retried, root array returned" % name)
                 else:
                     ctx.violated(f, st, "%s requests full_output but does not inspect the converged flags and retry" % name)
@@ -739,6 +744,34 @@ def _cache(ctx):
                 ctx.holds(f, f.node, "%s.K setter goes through the rebuilding setter" % ci.name)
             else:
                 ctx.violated(f, f.node, "%s.K setter neither sets _K with a rebuild nor delegates to the rebuilding setter" % ci.name)
+
+
+def _retry_quantifier(test, var):
+    """'some-failed' for tests equivalent to `not all(converged)` (sum(c) < len(c), not np.all(c), (~c).any(), ...),
+    'none-converged' for `not any(converged)` forms, None if not recognised (left to the other clauses)"""
+    t, neg = test, False
+    while isinstance(t, ast.UnaryOp) and isinstance(t.op, ast.Not):
+        t, neg = t.operand, not neg
+
+    def flags(e):
+        return isinstance(e, ast.Subscript) and isinstance(e.value, ast.Name) and e.value.id == var and const_value(e.slice) == 1
+    if isinstance(t, ast.Call):
+        cn = call_name(t) or ""
+        arg = t.args[0] if t.args else (t.func.value if isinstance(t.func, ast.Attribute) else None)
+        inv = isinstance(arg, ast.UnaryOp) and isinstance(arg.op, ast.Invert)
+        base = arg.operand if inv else arg
+        if base is not None and flags(base):
+            kind = "any" if cn in ("np.any", "any") or (isinstance(t.func, ast.Attribute) and t.func.attr == "any") else \
+                ("all" if cn in ("np.all", "all") or (isinstance(t.func, ast.Attribute) and t.func.attr == "all") else None)
+            if kind == "any" and not inv:
+                return "none-converged" if neg else None
+            if kind == "all" and not inv and neg:
+                return "some-failed"
+            if kind == "any" and inv and not neg:
+                return "some-failed"
+    if isinstance(t, ast.Compare) and len(t.ops) == 1 and isinstance(t.ops[0], (ast.Lt, ast.NotEq)) and not neg:
+        return "some-failed"
+    return None
 
 
 def _same_closed_form(prog, a, b):
